@@ -46,6 +46,7 @@ def run(P, rep, tier):
     rep.attempt(r3_shipped_schemas, P, rep, ctx)
     rep.attempt(r4_wrapper_stricter, P, rep, ctx)
     rep.attempt(r5_const_specialisation, P, rep, ctx)
+    rep.attempt(r7_make_mandatory, P, rep, ctx)
     rep.floor("C13.R1", 8)
     rep.floor("C13.R2", 2)
     rep.floor("C13.R3", 4)
@@ -480,6 +481,35 @@ def r5_const_specialisation(P, rep, ctx):
     need_ovr = f.refuses_when([[FD, f"{FD} is not None", f"{nm} in {mc}.__fields__"], [f"not {fi.params[1]}"], [f"not is_enum({FD}.type_)"], [f"not is_literal({FD}.type_)"]], src_edge=(L, "iter"), targets=[L, g.exit])
     rep.check(bool(need_ovr) and bool(val_raises), "C13.R5", af.qual,
               "overriding an ordinary inherited field with a constant needs override=True", af.loc(), construct="override required", message="add_const_fields silently replaces an ordinary inherited field")
+
+
+def r7_make_mandatory(P, rep, ctx):
+    """@make_mandatory only *tightens* an inherited field: the inherited ModelField object (with the parents' validators,
+    constraints and alias) stays, it is flagged required and the hint loses its Optional."""
+    outer = P.func("schema.decorators.make_mandatory")
+    fi = outer.nested.get("make_fields_mandatory")
+    if fi is None:
+        raise AnalysisError("C13.R7: make_mandatory.make_fields_mandatory not found")
+    f = F(ctx, fi)
+    g = f.g
+    mc = fi.params[0]
+    loops = [n for n in g.nodes if n.kind == "for" and isinstance(n.stmt.target, ast.Name)]
+    if len(loops) != 1:
+        raise AnalysisError("C13.R7: name loop of make_mandatory not found")
+    L, nm = loops[0].idx, loops[0].stmt.target.id
+    replaced = [(i, v) for i, v, b in f.stores(f"{mc}.__fields__[__k]")] + [(i, None) for i in f.deletes(f"{mc}.__fields__[__k]")]
+    for i, v in replaced:
+        rep.fail("C13.R7", fi.qual, f"field object replaced: {norm(g.nodes[i].stmt)[:70]}", f"make_mandatory replaces / removes the inherited field object ({norm(g.nodes[i].stmt)[:80]}): validators and constraints the parents attached to the field are lost, so the child accepts (and serialises) values its parent schema rejects", fi.loc(g.nodes[i].stmt))
+    req = [i for i, v, b in f.stores(f"{mc}.__fields__[{nm}].required") if norm(v) == "True"]
+    other_attr = [g.nodes[i].stmt for i, v, b in f.stores(f"{mc}.__fields__[__k].__a") if i not in req] if False else []
+    hint = [i for i, v, b in f.stores(f"{mc}.__annotations__[{nm}]") if f.x_at(i, g.nodes[i].stmt.value) == f"unoptional(field_parent_type({mc}, {nm}))"]
+    ok = bool(req) and bool(hint) and f.hit_before(L, nodes=req, src_edge=(L, "iter")) and f.hit_before(L, nodes=hint, src_edge=(L, "iter"))
+    rep.check(ok and not replaced, "C13.R7", fi.qual, "each named inherited field is flagged required in place and its hint becomes the parent's hint without Optional", fi.loc(), construct="make_mandatory tightening",
+              message="make_mandatory does not (only) set `required = True` on the inherited field and narrow its hint to unoptional(parent hint)")
+    missing = f.tests(f"{nm} not in {mc}.__fields__")
+    own = f.tests(f"{nm} in get_annotations({mc})")
+    rep.check(f.refuses(missing) and f.refuses(own) and f.all_hit_before(req, nodes=f.test_nodes(missing)) and f.all_hit_before(req, nodes=f.test_nodes(own)), "C13.R7", fi.qual, "unknown fields and fields re-declared in the class are refused", fi.loc(), construct="make_mandatory refusals",
+              message="make_mandatory accepts a name that is not an inherited field / that the class re-declares itself")
 
 
 def r4_wrapper_stricter(P, rep, ctx):
